@@ -48,4 +48,6 @@ let run toks =
   | ["wf"] -> if wf_schema schema then "ok true" else "ok false"
   | l -> "driver-error unknown op " ^ String.concat " " l
 
-let () = each_line run
+(* results of earlier lines are flushed before an operation starts, so that a caller that caps this process's memory
+   (lib/vlib.run_lines_resilient) can tell which line it died on *)
+let () = each_line (fun toks -> flush stdout; run toks)
